@@ -60,8 +60,12 @@ class RemoveAnyNeverTransformer(cst.CSTTransformer):
 
   def leave_AnnAssign(
       self, original_node: cst.AnnAssign, updated_node: cst.AnnAssign
-  ) -> cst.CSTNode:
-    if self._is_any_or_never(original_node.annotation):
+  ) -> cst.CSTNode | cst.RemovalSentinel:
+    if self._is_any_or_never(original_node.annotation.annotation):
+      if updated_node.value is None:
+        # A bare declaration (`x: Any`), as found in stubs: without the
+        # annotation nothing is left of it.
+        return cst.RemovalSentinel.REMOVE
       return cst.Assign(
           targets=[cst.AssignTarget(target=updated_node.target)],
           value=updated_node.value,
